@@ -214,10 +214,65 @@ func funcDeclName(fd *ast.FuncDecl) string {
 func (c *c14) idiom(fd *ast.FuncDecl, e ast.Expr) string {
 	info := c.info
 	rc := &rmCtx{p: c.p, info: info, recv: recvObj(info, fd)}
-	// G3: inside splitPath, whose whole body is recognised against its contract
+	// G3: inside a func(string) (string, string) that satisfies the splitPath contract in every
+	// case of the partition; the evaluation proves 0 <= lo <= hi <= len for each slice it meets
 	if fd.Recv == nil && len(paramObjs(info, fd)) == 1 && fd.Type.Results != nil && len(fd.Type.Results.List) == 2 {
-		if ok, _ := recogniseSplitPath(c.p, fd); ok {
-			return "G3 splitPath: s[1:] under HasPrefix(s,\"/\"); s[:idx+1], s[idx+1:] with 0 <= idx = Index(s[1:],\"/\") < len(s)-1"
+		if res := checkSplitPathContract(c.p, fd); res.Why == "" && res.Proven[e] {
+			return "G3 splitPath contract: bounds proven in every case of the input partition (strcut)"
+		}
+	}
+	// G7: inside a block that extracts the text before the next "/" from a cursor string: bounds
+	// proven by the same case-partitioned evaluation
+	{
+		var base ast.Expr
+		switch x := e.(type) {
+		case *ast.SliceExpr:
+			base = x.X
+		case *ast.IndexExpr:
+			base = x.X
+		}
+		if bo := identObj(info, base); bo != nil {
+			var blocks []*ast.BlockStmt
+			ast.Inspect(fd.Body, func(n ast.Node) bool {
+				if b, ok := n.(*ast.BlockStmt); ok && b.Pos() <= e.Pos() && e.End() <= b.End() && b != fd.Body {
+					blocks = append(blocks, b)
+				}
+				return true
+			})
+			for _, b := range blocks {
+				stop := func(st ast.Stmt) bool {
+					ifs, ok := st.(*ast.IfStmt)
+					if !ok {
+						return false
+					}
+					be, ok := ast.Unparen(ifs.Cond).(*ast.BinaryExpr)
+					if !ok || be.Op != token.EQL {
+						return false
+					}
+					call, ok := ast.Unparen(be.X).(*ast.CallExpr)
+					if !ok || len(call.Args) != 1 {
+						return false
+					}
+					id, ok := call.Fun.(*ast.Ident)
+					k, okk := rc.constInt(be.Y)
+					return ok && id.Name == "len" && okk && k == 0
+				}
+				// candidate cursors: the sliced variable itself, or a variable it was cut from
+				cands := []types.Object{bo}
+				ast.Inspect(b, func(n ast.Node) bool {
+					if sl, ok := n.(*ast.SliceExpr); ok {
+						if o := identObj(info, sl.X); o != nil && o != bo {
+							cands = append(cands, o)
+						}
+					}
+					return true
+				})
+				for _, cur := range cands {
+					if _, _, res := pathVarExtraction(c.p, b.List, cur, stop); res.Why == "" && res.Proven[e] {
+						return "G7 path segment extraction: bounds proven in every case of the input partition (strcut)"
+					}
+				}
+			}
 		}
 	}
 	// G4: h = rt.F[i](h) inside the recognised reverse loop
